@@ -663,15 +663,24 @@ def func_table(prog, funcs_meta, options, labelled_twin=None):
     removed the entry lines come from the labelled twin's label->index map."""
     pp = bool(options.get("use_push_pop_functions"))
     out = {}
+
+    def entered_by_jump(p):
+        # the label of an inlined function can survive inside its caller (it does when the line carries a source
+        # comment): only a label that some jal / j names is the entry of a subroutine
+        return {t[-1] for t in p.lines if t and t[0] in ("jal", "j")}
+
     if options.get("remove_labels"):
         if labelled_twin is None:
             return out
-        m = label_index_map(labelled_twin)
+        twin = Program(labelled_twin) if isinstance(labelled_twin, str) else labelled_twin
+        m = label_index_map(twin)
+        called = entered_by_jump(twin)
         for f in funcs_meta:
-            if f["label"] in m:
+            if f["label"] in m and f["label"] in called:
                 out[m[f["label"]]] = dict(name=f["name"], nargs=f["nparams"], nret=int(bool(f["ret"])), pushpop=pp)
     else:
+        called = entered_by_jump(prog)
         for f in funcs_meta:
-            if f["label"] in prog.labels:
+            if f["label"] in prog.labels and f["label"] in called:
                 out[prog.labels[f["label"]]] = dict(name=f["name"], nargs=f["nparams"], nret=int(bool(f["ret"])), pushpop=pp)
     return out
